@@ -121,7 +121,9 @@ func openStorage(dir string, opt Options) (*storage, error) {
 	if s.log, err = log.Open(filepath.Join(dir, "log"), 0700, logOpt); err != nil {
 		return nil, err
 	}
-	resetLog := s.log.LastIndex() < s.snaps.index
+	// log ends before the snapshot, or starts after it. the later happens if we
+	// died while the segments were being removed one by one, from the beginning
+	resetLog := s.log.LastIndex() < s.snaps.index || s.log.PrevIndex() > s.snaps.index
 	if !resetLog && s.snaps.index > s.log.PrevIndex() {
 		// log still has the entry at snapshot index. if its term
 		// differs from snapshot term, the log was about to be
